@@ -81,6 +81,11 @@ CHECKS = {
          "~25,000 requests (thorough adds triples): every placement of up to two components from a 23-element hostile alphabet into path items, names, new names, new paths, folder-upload item paths on the transfer stream and account logins (create, batched create, rename twice, set, delete, get), plus raw path fields with disagreeing prefixes; the snapshot of everything outside the file root and outside the accounts directory must be bit-identical afterwards, account files must be direct children, and no reply or transfer stream may contain canary content or list outside entries.",
          "The root itself counts as inside; its fork side-file names next to it count as outside.",
          "DESIGN.md §5 C07"),
+ "C11": ("model_checking",
+         "explicit-state breadth-first search over file-management histories against a reference namespace model, with every view (listing, get-info, download reply, disk) cross-checked in every state",
+         "Every history up to depth 2 (thorough 3) over ~70 operations (rename, move, delete, create folder, alias, set comment; files with and without stored forks, a stored type that contradicts the extension, a Mac-Roman name, folders, ignored entries, a partial upload): the real tree must equal the model's (fork side-files and partial data travel or vanish with their file, mkdir never replaces), each folder's listing must equal the model's visible entries, and every listed complete entry must be addressable by its listed bytes for get-info and download with size/type agreeing across list, info, download reply and disk.",
+         "Renames/moves only onto unused names; folder comment side-file after a folder rename and dangling aliases are unspecified.",
+         "DESIGN.md §5 C11"),
 }
 NOT_YET = "check not built yet in this session (see DESIGN.md §11 build order)"
 
